@@ -295,6 +295,16 @@ def instances(env, cfg, family, B, seed):
                 tot = pr[:h].sum(-1, keepdim=True).clamp(min=1e-6)
                 pr[:h] = pr[:h] / tot * (0.3 + 0.6 * torch.rand(h, 1, generator=g))
                 td[key] = pr
+        if name == "svrp":
+            # hand-supplied crews that are NOT listed by increasing skill (only the last technician has to be the most skilled one, so
+            # that every customer stays servable): route k is driven by technician k as the instance lists them
+            te = td["techs"].clone()
+            T_ = te.shape[1]
+            if T_ >= 3:
+                for b_ in range(B):
+                    perm = torch.randperm(T_ - 1, generator=g)
+                    te[b_, : T_ - 1] = te[b_, perm]
+                td["techs"] = te
         if name == "op":
             # a third of the rows cannot reach any customer within their budget (shorter than the nearest round trip): the only
             # admissible tour is the empty one, next to ordinary rows in the same batch
